@@ -13,7 +13,7 @@ use super::{KeyIdExpiry, Store, TypeOfExpiryUpdate, UpdateResponse};
 use crate::cache::clock::verif_kani::{any_duration, any_time, boxed};
 use crate::cache::stats::verif_kani as st;
 use crate::cache::types::KeyId;
-use crate::verif_stubs::verif_harness;
+use crate::verif_stubs::{verif_harness, InsertAt};
 
 #[derive(Copy, Clone)]
 pub(crate) struct E { pub key: u64, pub value: u64, pub id: KeyId, pub expiry: Option<SystemTime>, pub deleted: bool }
@@ -30,12 +30,6 @@ impl<const N: usize> Model<N> {
     pub fn readable(&self, key: u64) -> Option<u64> {
         match self.find(key) { Some(e) if spec_alive(e.deleted, e.expiry, self.now) => Some(e.value), _ => None }
     }
-}
-
-trait InsertAt<K, V> { fn verif_insert_at(&self, slot: usize, k: K, v: V); }
-impl<K: Eq + std::hash::Hash, V> InsertAt<K, V> for DashMap<K, V> {
-    // used only when the harness is replayed natively against the real dashmap (the stand-in has an inherent method)
-    fn verif_insert_at(&self, _slot: usize, k: K, v: V) { self.insert(k, v); }
 }
 
 pub(crate) fn arbitrary<const N: usize>() -> (Store<u64, u64>, Model<N>) {
@@ -109,7 +103,7 @@ fn t_get_ref<const N: usize>() {
                 assert!(*kv.key() == k);
                 assert!(kv.value().key_id() == m.find(k).unwrap().id);
             }
-            None => assert!(m.readable(k).is_none()),
+            None => { assert!(m.readable(k).is_none()); }
         }
         stats_are(&store, st::bumped(m.stats, if r.is_some() { 0 } else { 1 }, 1));
         kani::cover!(r.is_some(), "hit");
@@ -200,8 +194,8 @@ fn t_mark_deleted<const N: usize>() {
     let k: u64 = kani::any();
     store.mark_deleted(&k);
     match m.find(k) {
-        Some(e) => assert!(same(raw(&store, k), Some(E { deleted: true, ..e }))),
-        None => assert!(raw(&store, k).is_none()),
+        Some(e) => { assert!(same(raw(&store, k), Some(E { deleted: true, ..e }))); }
+        None => { assert!(raw(&store, k).is_none()); }
     }
     others_unchanged(&store, &m, k);
     assert!(store.store.len() == m.count());
